@@ -34,7 +34,7 @@ ASSUMPTIONS = [
 S0 = world.tosec("2020-01-01T00:00:00")
 DT = 600
 DIRS = [(1, 0), (-1, 0), (0, 1), (0, -1), (1, 1), (-1, 1), (1, -1), (-1, -1)]
-SPEEDS = [0.5, 0.9, 1.5, 3.0]
+SPEEDS = [0.3, 0.5, 0.9, 1.5, 3.0]
 SUBGRIDS = [None, [1, 7, 4, 9], [5, 10, 1, 6], [2, 8, 2, 7], [1, 6, 1, 5], [4, 9, 3, 8]]  # incl. j0 >= i0+2 and i0 >= j0+2
 
 
@@ -121,14 +121,15 @@ def seeds(lim):
     i0, i1, j0, j1 = lim
     xl, xh, yl, yh = i0 + 0.5, i1 - 1.5, j0 + 0.5, j1 - 1.5
     xm, ym = (xl + xh) / 2, (yl + yh) / 2
-    xs = [xl + 0.01, xl + 0.3, xl + 0.59, xm, xh - 0.59, xh - 0.3, xh - 0.01]
-    ys = [yl + 0.01, yl + 0.3, yl + 0.59, ym, yh - 0.59, yh - 0.3, yh - 0.01]
+    # incl. release positions in the half-cell margin between the valid region and the limit of the velocity arrays
+    xs = [xl - 0.45, xl + 0.01, xl + 0.3, xl + 0.59, xm, xh - 0.59, xh - 0.3, xh - 0.01, xh + 0.2, xh + 0.45]
+    ys = [yl - 0.45, yl + 0.01, yl + 0.3, yl + 0.59, ym, yh - 0.59, yh - 0.3, yh - 0.01, yh + 0.2, yh + 0.45]
     P = []
     for x in xs:
         for y in ys:
             if abs(x - xm) < 1e-9 and abs(y - ym) < 1e-9:
                 continue
-            if x in xs[:3] + xs[-3:] or y in ys[:3] + ys[-3:]:
+            if x in xs[:4] + xs[-5:] or y in ys[:4] + ys[-5:]:
                 P.append((x, y))
     return P
 
